@@ -2,15 +2,41 @@ ID = "C11"
 
 PROP = {
     "level": "exploration",
-    "rule": "tbd",
-    "assumptions": [],
+    "rule": ("the real config.TxnPoliciesAccessor (built by config.BuildInitialFromFile from a scratch policies.yaml, validation rules registered as "
+             "routing.initializePolicies does) on a virtual clock; every policy version carries a unique marker in the name of a disabled global remedy. "
+             "TestHistories: rapid histories of <=40 events over transaction ids that are unique but close to one another (prefixes, case variants, blanks): "
+             "request(i) = first GetTxnPoliciesData(i); response(i) = a further look-up (response handler / diagnosis worker); reload by UpdatePoliciesData, "
+             "ReloadFromFile, UpdateRawData+ReloadFromFile (POST /apply_policies with body), unparsable file (must fail), HAProxy refusing the endpoint update "
+             "(must fail); fail-safe revert to diagnosis-free / last-loaded through the loaded-policies files; advance by "
+             "{1ms,999ms,1,2,4,4.999,5,5.001,6,10,24,29,29.999,30,30.001,31,40 s}; 'advance to request(i)+30s+{-5.001s..+10s} then answer i'; the two vacuum "
+             "loops are fired and awaited through the clock; every history ends by answering every transaction once more and starting a new one. "
+             "TestBoundaryGrid: complete enumeration of request phase in the 5 s tick period x request->reload distance x reload kind x optional second reload x "
+             "request->response distance around 5 s / 30 s / 35 s / 60 s at 1 ms and 1 s resolution. TestBurst: prelude history, then 2-4 worker goroutines "
+             "(first look-ups of fresh ids, repeated look-ups of own and of shared earlier ids), one reloader goroutine (1-6 reloads/reverts) and the main "
+             "goroutine advancing the clock by < 30 s in total (vacuum passes) run concurrently; judged from observed results only. "
+             "Non-trivial: a look-up of a transaction whose pin is live, with >=1 successful reload and >=1 vacuum pass since its request "
+             "(burst: a live-pin look-up that observed an older version than the current one after >=1 vacuum pass). distinct = canonical JSON of the history"),
+    "assumptions": [
+        "transaction ids are unique per transaction (HAProxy unique-id); two *first* look-ups of the same id never race (the request is handled before its response exists)",
+        "retention period = 30 s as the statement's quantifier says; it is not read from the code. At exactly request+30 s, and later, the pinned version, the current one or any version created in between is accepted (statement silent); nothing else, in particular never the empty fallback",
+        "a reload counts as having happened iff the accessor call reported success; revert restores the content of the last policies file that was read successfully (with / without its diagnosis plugins)",
+        "versions are compared by content (marker, presence of diagnosis plugins), not by pointer: two versions with identical content are interchangeable for the statement",
+        "the look-up key is re-stated from routing/messages_handler.go and runner/diagnosis_worker.go (config.TxnID(args.ID) on request, response and diagnosis task); the unexported handlers themselves are not driven (building a HandlingDataManager dials the syslog exporter socket)",
+        "burst interleavings are whatever the Go scheduler produces; unsynchronised access that only a race detector sees belongs to C18",
+    ],
     "units": [
-        {"pkg": "c11", "test": "TestHistories", "quick": 1500, "thorough": 20000, "shards": 16},
-        {"pkg": "c11", "test": "TestBurst", "quick": 600, "thorough": 8000, "shards": 16},
+        {"pkg": "c11", "test": "TestHistories", "quick": 3000, "thorough": 20000, "shards": 16},
+        {"pkg": "c11", "test": "TestBurst", "quick": 1500, "thorough": 10000, "shards": 16},
         {"pkg": "c11", "test": "TestBoundaryGrid", "kind": "plain"},
     ],
-    "technique": "tbd",
-    "level_text": "tbd",
-    "level_note": "tbd",
+    "technique": ("stateful property-based testing (rapid) of the real accessor and its two vacuum goroutines under a deterministic virtual clock (hand-shake on every "
+                  "vacuum pass) + bounded-exhaustive boundary grid + concurrent burst; oracle = snapshot-isolation reference model (versions in creation order, "
+                  "one pin per transaction, 30 s retention) and, for the burst, bounds derived from sequentially consistent counters around each call"),
+    "level_text": ("generated histories of requests, responses, reloads, failing reloads, fail-safe reverts and clock advances are run against the real accessor; "
+                   "every returned policies object is compared with the version the reference model pins the transaction to (inside 30 s: exactly that version; "
+                   "new transactions: the current version; at/after 30 s: that version or a later one; never empty). The grid unit enumerates all combinations of "
+                   "the listed boundary distances; the burst unit checks the same from concurrent goroutines. This is search over a bounded domain, not proof"),
+    "level_note": ("needs hook H1 (process-wide clock); all HTTP of the process (HAProxy health check / endpoint management) is answered by an in-memory RoundTripper, "
+                   "no socket is opened; only TestBoundaryGrid is exhaustive (over its stated grid)"),
     "design_ref": "DESIGN.md section 2, C11",
 }
